@@ -125,11 +125,13 @@ def ensure_makefile():
         open(stamp, "w").write(want)
 
 
-def make(targets, timeout=3000):
+def make(targets, timeout=1800):
     """make the given .vo targets (relative to coq/). Returns (ok, output)."""
-    with C.locked("coq"):
+    # only the Makefile generation is serialized: a global build lock would let one
+    # long-running (or hanging) proof block every other check
+    with C.locked("coq-makefile"):
         ensure_makefile()
-        rc, out = C.run(["make", "-j%d" % C.NCPU] + list(targets), cwd=C.COQ, timeout=timeout)
+    rc, out = C.run(["make", "-j%d" % C.NCPU] + list(targets), cwd=C.COQ, timeout=timeout)
     return rc == 0, out
 
 
@@ -153,16 +155,16 @@ def audit_property(prop, extra_targets=()):
             res["ok"] = False
             res["failures"].append({"kind": "non-exact-proof-in-properties", "theorem": m.group(1),
                                     "proof": body[:200]})
-    with C.locked("coq"):
+    with C.locked("coq-makefile"):
         ensure_makefile()
-        vo = os.path.join(C.COQ, "Properties", prop + ".vo")
-        for ext in (".vo", ".vok", ".vos", ".glob"):
-            try:
-                os.remove(vo[:-3] + ext)
-            except OSError:
-                pass
-        rc, out = C.run(["make", "-j%d" % C.NCPU, "Properties/%s.vo" % prop] + list(extra_targets),
-                        cwd=C.COQ, timeout=3000)
+    vo = os.path.join(C.COQ, "Properties", prop + ".vo")
+    for ext in (".vo", ".vok", ".vos", ".glob"):
+        try:
+            os.remove(vo[:-3] + ext)
+        except OSError:
+            pass
+    rc, out = C.run(["make", "-j%d" % C.NCPU, "Properties/%s.vo" % prop] + list(extra_targets),
+                    cwd=C.COQ, timeout=3000)
     res["output"] = out[-6000:]
     bad = scan_forbidden(prop)
     res["cone"] = [os.path.relpath(f, C.VERIF) for f in (cone(prop) or [])]
@@ -189,7 +191,7 @@ def audit_property(prop, extra_targets=()):
         if b.startswith("Closed"):
             res["axioms"][name] = []
         else:
-            axs = re.findall(r"^([A-Za-z_][\w.']*)\s*:", b, re.M)
+            axs = [a for a in re.findall(r"^([A-Za-z_][\w.']*)\s*:", b, re.M) if a != "Axioms"]
             res["axioms"][name] = axs
             for a in axs:
                 if a not in ALLOWED_AXIOMS and a.split(".")[-1] not in ALLOWED_AXIOMS:
